@@ -115,11 +115,18 @@ def run(ctx):
     roles["tag"] = tag
     idx = {}
     vec = set()
+    from .common import role_id
     for nm, t in roles.items():
         if t.op == "index" and t.args[1].op == "int":
             idx[nm] = t.args[1].args[0]
             vec.add(t.args[0])
     ok = len(idx) == 3 and len(set(idx.values())) == 3 and len(vec) == 1
+    rids = {nm: role_id(t) for nm, t in roles.items()}
+    const_family = all(r is not None and r[0] == "const" for r in rids.values()) and len(rids) == 3
+    if not ok and const_family:
+        # three separate PRF outputs told apart by the constant each absorbs (derive(0), derive(1), derive(2))
+        ok = len(set(rids.values())) == 3
+        idx = {nm: r[1] for nm, r in rids.items()}
     ctx.add("C02.R2", root + "#distinct-roles", ok,
             "key seed, coins and tag must be three different elements of the one derived vector; found %s"
             % {k: S(v, 3) for k, v in roles.items()}, at, sample=idx)
@@ -142,6 +149,18 @@ def run(ctx):
             keyed = [d for k, d, _ in tr if k == "key" and Q.params(Q.leaves(d)) == {"rnd"}]
             okc = bool(absorbs) and bool(keyed)
             det = Q.show_trace(Q.trace_of(elems[0].args[1]), 4)
+    if not okc and const_family:
+        okc = True
+        dets = []
+        for nm, t in roles.items():
+            tt = t
+            while tt.op in ("refv", "conv", "copied", "deref"):
+                tt = tt.args[0]
+            tr = Q.flat_ops(Q.trace_of(tt.args[1]))
+            keyed = [d for k, d, _ in tr if k == "key" and Q.params(Q.leaves(d)) == {"rnd"}]
+            okc = okc and bool(keyed)
+            dets.append("%s absorbs %s" % (nm, rids[nm][1]))
+        det = "; ".join(dets)
     ctx.add("C02.R2", root + "#element-absorbs-counter", okc,
             "each derived value must be a PRF output keyed by the client randomness that absorbs its own index: %s" % det, at,
             sample=det)
@@ -157,7 +176,7 @@ def run(ctx):
             adt = "sta_rs::Message" if root2.endswith("generate") else "sta_rs::WASMSharingMaterial"
             tg = ok2[2][0].args[1 + fidx(ctx, adt, "tag")]
         def ix(t):
-            return t.args[1].args[0] if t is not None and t.op == "index" and t.args[1].op == "int" else None
+            return role_id(t) if t is not None else None
         sib[root2] = (ix(cn2[0]["argv"][1]) if cn2 else None, ix(cn2[0]["argv"][2]) if cn2 else None,
                       ix(dk2[0]["argv"][0]) if dk2 else None, ix(tg))
     vals = list(sib.values())
@@ -312,8 +331,9 @@ def poly_rules(ctx, rule):
     okp = len(rp) == 1 and Q.path_of(rp[0]["argv"][1]) == "self.0" and Q.path_of(rp[0]["argv"][2]) == "rng"
     cfg2 = fr2.cfg
     if okp:
-        b = rp[0]["block"]
-        okp = any(cfg2.dominates(h, b) and h in cfg2.reachable_from(b) for h in cfg2.loop_heads())
+        b = rp[0]["home_block"]
+        # once per secret chunk: inside the chunk loop, or inside the closure a `map` over the chunks runs per element
+        okp = any(cfg2.dominates(h, b) and h in cfg2.reachable_from(b) for h in cfg2.loop_heads()) or "#map@" in rp[0]["frame"]
     ctx.add(rule, root2 + "#one-polynomial-per-chunk", okp,
             "dealer_rng must build one random_polynomial(element, threshold, rng) per secret chunk inside its chunk loop", at2)
     # the degree is the declared threshold - 1 only if ADSS hands Sharks the access structure's threshold as it is
